@@ -113,6 +113,18 @@ CLAIMED["C16"] = dict(
           "is required to be rejected only by the order-checking readers."),
     ref="4 C16")
 
+CLAIMED["C17"] = dict(
+    engine="base",
+    technique="TLA+ spec Cbor.tla (RFC 8949 data model with deterministic encoding; token types transcribed from cddl/cis-7.cddl; decoder-rule near misses) enumerated by TLC; vectors and their mutation closure decoded/encoded by the real codec with a counting allocator",
+    text=("Cbor.tla encodes abstract CBOR values with shortest heads, definite lengths and bytewise key order, at every head-width boundary and to nesting depth 64, and describes the protocol-level-token types "
+          "(token amount as decimal fraction, transfer/mint/burn/list/pause operations, tagged holder accounts with optional coin info) from the repository's CDDL rather than from the Rust derives. Every canonical vector must "
+          "decode, re-encode byte-identically (determinism) and show the stated fields; every near miss (trailing data, truncated items, invalid UTF-8, hostile lengths, reserved heads, missing mandatory fields, "
+          "undeclared fields under UnknownMapKeys::Fail, ill-typed items, wrong tags, two variants in one operation) must be rejected; unknown operations must be preserved where the type declares it; proper prefixes and "
+          "appended bytes must be rejected; bit flips must leave decode . encode . decode stable; allocation is bounded by 64 KiB + 64 x input. Token amounts are checked across CBOR, decimal string and JSON forms."),
+    note=("Maps of value::Value are compared modulo entry order; permissive decoder classes (non-shortest heads, indefinite lengths, duplicate keys) get totality and stability only (O9). String forms for decimals <= 28 (O8). "
+          "Nesting beyond 64 is outside the property. Token events, module state and reject reasons are not yet specified."),
+    ref="4 C17")
+
 NOT_YET = {
 }
 
